@@ -39,3 +39,65 @@ where
 {
     IntOrString::deserialize(deserializer).map(String::from)
 }
+
+/// The Rust types an ID-typed field can have once list and non-null modifiers are applied:
+/// `String`, and any nesting of `Option` and `Vec` around it.
+///
+/// This is used by the codegen for ID fields inside lists, e.g. `[ID!]!` or `[[ID]]`.
+pub trait DeserializeId<'de>: Sized {
+    /// Deserialize `Self`, accepting either a String or an Integer for every ID in it.
+    fn deserialize_id<D>(deserializer: D) -> Result<Self, D::Error>
+    where
+        D: Deserializer<'de>;
+}
+
+impl<'de> DeserializeId<'de> for String {
+    fn deserialize_id<D>(deserializer: D) -> Result<Self, D::Error>
+    where
+        D: Deserializer<'de>,
+    {
+        deserialize_id(deserializer)
+    }
+}
+
+struct NestedId<T>(T);
+
+impl<'de, T: DeserializeId<'de>> Deserialize<'de> for NestedId<T> {
+    fn deserialize<D>(deserializer: D) -> Result<Self, D::Error>
+    where
+        D: Deserializer<'de>,
+    {
+        T::deserialize_id(deserializer).map(NestedId)
+    }
+}
+
+impl<'de, T: DeserializeId<'de>> DeserializeId<'de> for Option<T> {
+    fn deserialize_id<D>(deserializer: D) -> Result<Self, D::Error>
+    where
+        D: Deserializer<'de>,
+    {
+        Option::<NestedId<T>>::deserialize(deserializer).map(|opt| opt.map(|id| id.0))
+    }
+}
+
+impl<'de, T: DeserializeId<'de>> DeserializeId<'de> for Vec<T> {
+    fn deserialize_id<D>(deserializer: D) -> Result<Self, D::Error>
+    where
+        D: Deserializer<'de>,
+    {
+        Vec::<NestedId<T>>::deserialize(deserializer)
+            .map(|ids| ids.into_iter().map(|id| id.0).collect())
+    }
+}
+
+/// Deserialize a (possibly nested, possibly nullable) list of IDs, each from either a String
+/// or an Integer representation.
+///
+/// This is used by the codegen for ID fields inside lists.
+pub fn deserialize_nested_id<'de, D, T>(deserializer: D) -> Result<T, D::Error>
+where
+    D: Deserializer<'de>,
+    T: DeserializeId<'de>,
+{
+    T::deserialize_id(deserializer)
+}
